@@ -407,13 +407,25 @@ func (s *state) visitFunction(node *ast.FunctionNode) {
 	}
 
 	switch node.Name {
-	case "isFirst":
-		// TODO: Add compile-time check that this is only called on loop variable.
-		s.js("(", s.scope.loopindex(), " == 0)")
-	case "isLast":
-		s.js("(", s.scope.loopindex(), " == ", s.scope.looplimit(), " - 1)")
-	case "index":
-		s.js(s.scope.loopindex())
+	case "isFirst", "isLast", "index":
+		// the argument names the loop: the variable of an enclosing foreach / for
+		var index, limit string
+		if len(node.Args) == 1 {
+			if ref, ok := node.Args[0].(*ast.DataRefNode); ok && len(ref.Access) == 0 {
+				index, limit = s.scope.loopvars(ref.Key)
+			}
+		}
+		if index == "" {
+			s.errorf("%v: the argument must be the variable of an enclosing loop", node.Name)
+		}
+		switch node.Name {
+		case "isFirst":
+			s.js("(", index, " == 0)")
+		case "isLast":
+			s.js("(", index, " == ", limit, " - 1)")
+		case "index":
+			s.js(index)
+		}
 	default:
 		s.errorf("unimplemented function: %v", node.Name)
 	}
